@@ -329,7 +329,11 @@ def gen_op_(rng, kind, doc, sel, pool):
             except Exception:
                 jp = None
             if jp is not None:
-                return {"op": "join", "pos": jp, "depth": 1}
+                op = {"op": "join", "pos": jp, "depth": 1}
+                if rng.random() < 0.4:
+                    # keep editing right at the seam (structural step followed by an adjacent edit)
+                    op["then"] = rng.choice(["backspace", "type", "delete_after"])
+                return op
         # raw join between adjacent compatible blocks
         return None
     if kind == "lift":
@@ -702,6 +706,14 @@ def apply_op(tr, op):
         if op["pos"] - op["depth"] < 0 or op["pos"] + op["depth"] > size or not pt.can_join(doc, op["pos"]):
             raise Refused("cannot join")
         tr.join(op["pos"], op["depth"])
+        seam = op["pos"] - op["depth"]
+        then = op.get("then")
+        if then == "backspace" and seam > 0:
+            tr.delete(seam - 1, seam)
+        elif then == "delete_after" and seam < tr.doc.content.size:
+            tr.delete(seam, seam + 1)
+        elif then == "type":
+            tr.replace_with(seam, seam, schema.text("j", tr.doc.resolve(seam).marks()))
     elif k == "lift":
         inr(op["from"], op["to"])
         r = doc.resolve(op["from"]).block_range(doc.resolve(op["to"]))
